@@ -100,6 +100,7 @@ class C10Runner:
             for algo in ("XY", "ID", "SRC"):
                 fixed.append(("mesh", algo, "axi", gen_desc.gen_partial_side(frng, algo, "axi", 2, 3)))
             fixed.append(("mesh", "XY", "narrow-wide", gen_desc.gen_mesh(frng, "XY", "narrow-wide", m=2, n=3, sides=["West", "South"], partial_local=False)))
+            fixed.append(("star", "ID", "axi", gen_desc.gen_prefix_protocols(frng, "ID")))      # fan-out onto one router
             fixed.append(("tree", "ID", "axi", gen_desc.gen_tree(frng, "ID", "axi", tree=[1, 2, 2])))
             fixed.append(("tree", "SRC", "narrow-wide", gen_desc.gen_tree(frng, "SRC", "narrow-wide", tree=[1, 3])))
         finally:
